@@ -3,6 +3,11 @@
 import json, os, subprocess
 ROOT = os.path.dirname(os.path.dirname(os.path.abspath(__file__)))
 props = json.load(open(os.path.join(ROOT, "props.json")))
+import glob
+for _p in sorted(glob.glob(os.path.join(ROOT, "props.d", "*.json"))):
+    _f = json.load(open(_p))
+    props["properties"].update(_f.get("properties", {}))
+    props.setdefault("engines", {}).update(_f.get("engines", {}))
 na = json.load(open(os.path.join(ROOT, "na.json")))
 ids = [json.loads(l)["id"] for l in open(os.path.join(ROOT, "properties.jsonl"))]
 hooks = json.load(open(os.path.join(ROOT, "hooks.json")))
